@@ -319,9 +319,21 @@ func TestC07_OnlyTheMatchingTransactionProvesDelivery(t *testing.T) {
 			expectEffect = new(big.Int).Mul(group, big.NewInt(3)).Cmp(new(big.Int).Mul(cur.TotalShares.BigInt(), big.NewInt(2))) >= 0
 		}
 		if variant == "replayForSecondMessage" {
-			// deliver the first message properly, then publish the same validator set again and offer the very same tx
+			// deliver the first message properly, then publish the same validator set again and offer the very same tx.
+			// "bootstrap" variant: the relayer reports no validator-set id (as for the first deployment on a chain), the
+			// call data then carries an empty consensus block.
+			bootstrap := rapid.Bool().Draw(t, "bootstrapNoValsetID")
+			if bootstrap {
+				signingID = 0
+				p.cons = cabi.EmptyConsensus()
+				data = encode(p)
+			}
 			submit(m, em, signingID, data, receipt, all, nil)
 			if liveOn(newID) != 1 {
+				if bootstrap {
+					evid.Case(t.Name(), "replay: delivery without validator-set id not accepted", false, []string{"replay:bootstrapNotAccepted"}, nil)
+					return
+				}
 				t.Fatalf("valid proof for message %d was not accepted (snapshot %d live on chain %d times)\nhistory: %v", m.GetId(), newID, liveOn(newID), log)
 			}
 			s2, _ := c.App.ValsetKeeper.FindSnapshotByID(c.ReadCtx(), newID)
@@ -347,11 +359,16 @@ func TestC07_OnlyTheMatchingTransactionProvesDelivery(t *testing.T) {
 			}
 			blk(txs...)
 			sameRelayer := strings.EqualFold(em2.AssigneeRemoteAddress, em.AssigneeRemoteAddress)
-			submit(m2, em2, signingID, data, receipt, all, nil)
+			// the relayer of the second message may also report no validator-set id at all (as during chain bootstrap)
+			replayID := signingID
+			if !bootstrap && rapid.IntRange(0, 3).Draw(t, "replayWithoutValsetID") == 0 {
+				replayID = 0
+			}
+			submit(m2, em2, replayID, data, receipt, all, nil)
 			if got := liveOn(newID); got != 1 {
 				t.Fatalf("the transaction already accepted for message %d was accepted again for message %d: snapshot %d marked live %d times\nhistory: %v", m.GetId(), m2.GetId(), newID, got, log)
 			}
-			evid.Case(t.Name(), fmt.Sprintf("replay sameRelayer=%v gas=%d n=%d", sameRelayer, gas, n), true, []string{"replay", fmt.Sprintf("replay:sameRelayer=%v", sameRelayer)}, func() any {
+			evid.Case(t.Name(), fmt.Sprintf("replay sameRelayer=%v gas=%d n=%d", sameRelayer, gas, n), true, []string{"replay", fmt.Sprintf("replay:sameRelayer=%v", sameRelayer), fmt.Sprintf("replay:valsetID=%v", replayID != 0), fmt.Sprintf("replay:bootstrap=%v", bootstrap)}, func() any {
 				return map[string]any{"variant": variant, "secondMessageHasSameRelayer": sameRelayer}
 			})
 			return
